@@ -148,7 +148,9 @@ namespace RecInt
     }
 
     template <size_t K, typename T> rint<K>& operator>>=(rint<K>& b, const T& c) {
-        b.Value >>= c;
+        // arithmetic shift (floor division by 2^c): for b < 0, ~b >= 0 and b >> c = ~(~b >> c)
+        if (b.isNegative()) { b.Value = ~b.Value; b.Value >>= c; b.Value = ~b.Value; }
+        else b.Value >>= c;
         return b;
     }
 
